@@ -492,6 +492,27 @@ pub fn replay_lm(l: &LinearModel, replay: &Value, o: &mut Value) {
     }
 }
 
+/// constants supplied through the API: job field "consts": [[name, number], ...] (whole numbers as integers)
+pub fn api_consts(v: &Value) -> Vec<rooc::Constant> {
+    v.get("consts")
+        .and_then(|c| c.as_array())
+        .map(|a| {
+            a.iter()
+                .map(|kv| {
+                    let name = kv[0].as_str().unwrap();
+                    let x = fnum(&kv[1]);
+                    let prim = if x.fract() == 0.0 && x.abs() < 1e15 {
+                        rooc::Primitive::Integer(x as i64)
+                    } else {
+                        rooc::Primitive::Number(x)
+                    };
+                    rooc::Constant::from_primitive(name, prim)
+                })
+                .collect()
+        })
+        .unwrap_or_default()
+}
+
 fn cmd_text(v: &Value) -> Value {
     let src = v["src"].as_str().unwrap().to_string();
     let want = &v["want"];
@@ -504,12 +525,12 @@ fn cmd_text(v: &Value) -> Value {
         });
     }
     if wants(want, "type_check") {
-        out["type_check"] = guarded(|| match p.type_check(&vec![], &IndexMap::new()) {
+        out["type_check"] = guarded(|| match p.type_check(&api_consts(v), &IndexMap::new()) {
             Ok(_) => json!({"ok": true}),
             Err(e) => json!({"err": e}),
         });
     }
-    let r = guarded(|| match p.parse_and_transform(vec![], &IndexMap::new()) {
+    let r = guarded(|| match p.parse_and_transform(api_consts(v), &IndexMap::new()) {
         Ok(m) => {
             let mut o = json!({"ok": model_json(&m)});
             if wants(want, "model_text") {
@@ -668,9 +689,10 @@ fn cmd_lm(v: &Value) -> Value {
 
 fn cmd_solve_text(v: &Value) -> Value {
     let src = v["src"].as_str().unwrap().to_string();
+    let consts = api_consts(v);
     timed(move || match RoocSolver::try_new(src) {
         Err(e) => json!({"ok": false, "kind": "Parse", "msg": e.to_string()}),
-        Ok(s) => match s.solve_using(auto_solver) {
+        Ok(s) => match s.solve_with_data_using(auto_solver, consts, &IndexMap::new()) {
             Ok(sol) => sol_json(Ok(sol)),
             Err(RoocSolverError::Solver(e)) => solver_err_json(&e),
             Err(RoocSolverError::Transform(e)) => json!({"ok": false, "kind": "Transform", "msg": e.to_string()}),
